@@ -199,6 +199,17 @@ class TopSpin:
         return {"rank": rank, "td": td, "td1": rng.randint(2, 4), "td3": rng.randint(2, 3), "big": rng.random() < 0.5,
                 "dtypa": rng.choice([0, 2]), "ver4": rng.random() < 0.3}
 
+    def systematic(self, rng):
+        """every rank x word size x sample kind once (the word size is stated by the header's version alone)"""
+        out = []
+        for rank in (1, 2, 3):
+            for ver4 in (False, True):
+                for dtypa in (0, 2):
+                    c = self.draw(rng)
+                    c.update({"rank": rank, "ver4": ver4, "dtypa": dtypa})
+                    out.append(c)
+        return out
+
     def width(self, c):
         return 8 if c["ver4"] else 4
 
